@@ -18,61 +18,13 @@ import (
 	"strings"
 	"sync"
 	"sync/atomic"
-	"time"
 
 	"github.com/google/badwolf/triple"
-	"github.com/google/badwolf/triple/literal"
-	"github.com/google/badwolf/triple/node"
 
 	"verif/bqlm"
 	"verif/common"
 	"verif/model"
 )
-
-func subj(i int) *node.Node { return model.N("/u", fmt.Sprintf("n%d", i)) }
-
-func zone(name string, h int) *time.Location { return time.FixedZone(name, h*3600) }
-
-// anchors: instants whose RFC3339 text order differs from their chronological order.
-func anchors() []time.Time {
-	base := time.Date(2016, 1, 1, 0, 0, 0, 0, time.UTC)
-	return []time.Time{
-		base,
-		base.Add(500 * time.Millisecond).In(zone("", 1)),
-		base.Add(1).In(zone("", -8)),
-		base.Add(-time.Hour).In(zone("", 5)),
-		base.Add(time.Hour + 120*time.Microsecond),
-	}
-}
-
-func graph() []*triple.Triple {
-	var ts []*triple.Triple
-	T := model.T
-	ints := []int64{-5, -3, 0, 2, 10}
-	floats := []float64{-1.5, -0.25, 0, 0.1, 1e21}
-	texts := []string{"a", "a!", "b", "B", "ab"}
-	nodes := []*node.Node{model.N("/u", "z"), model.N("/t", "a"), model.N("/u", "a"), model.N("/u", "a0"), model.N("/u", "B")}
-	for i := 0; i < 5; i++ {
-		s := subj(i)
-		ts = append(ts,
-			T(s, model.PI("ki"), model.OL(model.L(literal.Int64, ints[i]))),
-			T(s, model.PI("kf"), model.OL(model.L(literal.Float64, floats[i]))),
-			T(s, model.PI("kt"), model.OL(model.L(literal.Text, texts[i]))),
-			T(s, model.PI("kn"), model.ON(nodes[i])),
-			T(s, model.PI("kp"), model.OP(model.PT("p"+fmt.Sprint(4-i), model.T1))),
-			T(s, model.PT("t", anchors()[i]), model.ON(bqlm.NB)),
-		)
-	}
-	// ties: a sixth subject repeating values of subject 1
-	s := subj(5)
-	ts = append(ts,
-		T(s, model.PI("ki"), model.OL(model.L(literal.Int64, ints[1]))),
-		T(s, model.PI("kf"), model.OL(model.L(literal.Float64, floats[1]))),
-		T(s, model.PI("kt"), model.OL(model.L(literal.Text, texts[1]))),
-		T(s, model.PI("kn"), model.ON(nodes[1])),
-	)
-	return ts
-}
 
 func bt(n string) bqlm.Term            { return bqlm.Term{Kind: bqlm.Bind, Name: n} }
 func pc(id string) bqlm.Term           { return bqlm.Term{Kind: bqlm.Const, P: model.PI(id)} }
@@ -360,7 +312,7 @@ func checkInvalidLimits(r *common.Run, data []*triple.Triple, evals *int64) {
 
 func main() {
 	r := common.Start("C12", "model_checking")
-	data := graph()
+	data := bqlm.KindGraph()
 	bs := bases()
 	replay := func(raw json.RawMessage) (bool, string) {
 		var k kase
